@@ -507,7 +507,18 @@ check_schedule(const json& c)
   // under ASan/UBSan the sanitizer is the oracle for memory errors: Release behaviour (no assert()) is executed
   stir_verif::asserts_on = false;
 #endif
-  const Succeeded ok = recon.reconstruct(target);
+  Succeeded ok = Succeeded::no;
+  try
+    {
+      ok = recon.reconstruct(target);
+    }
+  catch (...)
+    {
+      // the timers of the reconstruction object are still running while the exception unwinds; their
+      // destructors assert(!running), which would terminate the process instead of reporting the case
+      stir_verif::asserts_on = false;
+      throw;
+    }
   stir_verif::asserts_on = true;
   VF_CHECK(ok == Succeeded::yes, "reconstruct() did not succeed");
   const std::vector<int>& used = obj->gradient_subsets;
